@@ -14,7 +14,7 @@ func runC19(cfg *config) *Report {
 	rep.Rule = "generated valid files in the four encodings, and for each of them every text column of every record overwritten in turn with each printable ASCII character (ASCII files) / each byte 0x40-0xFF (EBCDIC files) (quick tier: a seeded 1/40 sample of the columns, 1/4 for addendum A records); each input read by the real Reader with FRB_COMPATIBILITY_MODE unset and =true; judged when the mode-off read succeeds: the mode-on read must succeed with an equal file; non-trivial = mode-off read succeeded; distinct by input bytes"
 	nFiles := 2
 	if cfg.tier == "thorough" {
-		nFiles = 8
+		nFiles = 5
 	}
 	type kase struct {
 		in   []byte
